@@ -13,7 +13,7 @@ RULE = ("seeded designs RandomGen accepts; RandomGen asked for possible_keys+5 s
         "(integer draws <= 64*K*(ln K+8)), solution_count = |V| when no candidate is rejected and the enumerator has one "
         "round, no preamble choice and no leftover; non-trivial = |V|>=2; distinct = (design skeleton, rng mode)")
 ASSUMPTIONS = ["reference semantics (sim/refsem.py) reads the documentation correctly"]
-BUDGET = {"quick": 45, "thorough": 900}
+BUDGET = {"quick": 300, "thorough": 900}
 RUNS = {"quick": 2500, "thorough": 100000}
 KCAP = {"quick": 3000, "thorough": 40000}
 
